@@ -279,6 +279,8 @@ func CheckCase(c Case) *ev.Violation {
 					s = "TextTable." + n
 				case "TT.":
 					s = "TEXTTABLE." + n
+				case "bare+trail":
+					s = n + trail // sections after the first are ignored (not locked down): the name still selects the decoration
 				default:
 					s = n
 				}
